@@ -74,52 +74,6 @@ theorem wk_matches (m : Pat) (hm : m ∈ allMasks) (b0 b1 b2 b3 : String) :
   rcases hm with rfl | rfl | rfl | rfl | rfl | rfl | rfl | rfl | rfl | rfl | rfl | rfl | rfl | rfl | rfl | rfl <;>
     simp [wildcardKey, keyMatches, bit]
 
-/-- without an atom type called `X`, the wildcards of a masked key are the wildcards of the mask -/
-theorem wk_wildcards (a : Key) (hX : "X" ∉ a) (p : Pat) : wildcards (wildcardKey a p) = noneCount p := by
-  induction p with
-  | nil => rfl
-  | cons e p ih =>
-    cases e with
-    | none =>
-      simp only [wildcards, wildcardKey, noneCount, List.map_cons, List.count_cons_self] at ih ⊢
-      omega
-    | some i =>
-      have hne : a.getD i "" ≠ "X" := by
-        intro h
-        rw [List.getD_eq_getElem?_getD] at h
-        cases hi : a[i]? with
-        | none => simp [hi] at h
-        | some x =>
-          simp [hi] at h
-          exact hX (h ▸ List.mem_of_getElem? hi)
-      simp only [wildcards, wildcardKey, noneCount, List.map_cons] at ih ⊢
-      rw [List.count_cons_of_ne (by simpa using hne), List.count_cons_of_ne (by simp)]
-      exact ih
-
-def maskOfKey (k : Key) : Pat :=
-  match k with
-  | [k0, k1, k2, k3] => [bit (k0 == "X") 0, bit (k1 == "X") 1, bit (k2 == "X") 2, bit (k3 == "X") 3]
-  | _ => []
-
-/-- a key that matches the atoms IS the masked key of its own wildcard positions -/
-theorem key_of_mask (k : Key) (b0 b1 b2 b3 : String) (h : keyMatches k [b0, b1, b2, b3] = true) :
-    maskOfKey k ∈ allMasks ∧ wildcardKey [b0, b1, b2, b3] (maskOfKey k) = k ∧
-      noneCount (maskOfKey k) = wildcards k := by
-  have hl : k.length = 4 := by
-    simp only [keyMatches, Bool.and_eq_true, beq_iff_eq] at h
-    simpa using h.1
-  obtain ⟨k0, k1, k2, k3, rfl⟩ := len4 k hl
-  simp only [keyMatches, List.length_cons, List.length_nil, List.zipWith_cons_cons, List.zipWith_nil_left,
-    List.all_cons, List.all_nil, Bool.and_eq_true, Bool.or_eq_true, beq_iff_eq, id] at h
-  obtain ⟨_, h0, h1, h2, h3, _⟩ := h
-  refine ⟨mask_mem_allMasks _ ?_, ?_, ?_⟩
-  · by_cases c0 : k0 = "X" <;> by_cases c1 : k1 = "X" <;> by_cases c2 : k2 = "X" <;> by_cases c3 : k3 = "X" <;>
-      simp [maskOfKey, isMask, bit, c0, c1, c2, c3]
-  · by_cases c0 : k0 = "X" <;> by_cases c1 : k1 = "X" <;> by_cases c2 : k2 = "X" <;> by_cases c3 : k3 = "X" <;>
-      simp_all [maskOfKey, wildcardKey, bit]
-  · by_cases c0 : k0 = "X" <;> by_cases c1 : k1 = "X" <;> by_cases c2 : k2 = "X" <;> by_cases c3 : k3 = "X" <;>
-      simp [maskOfKey, noneCount, wildcards, bit, c0, c1, c2, c3]
-
 /-! ### wildcard counting position by position (no assumption on the atom-type names) -/
 
 def cx (s : String) : Nat := if s = "X" then 1 else 0
@@ -234,16 +188,6 @@ theorem cands_match (m : Pat) (hm : m ∈ allMasks) (a : Key) (ha : a.length = 4
   · exact Or.inr (wk_matches m hm _ _ _ _)
   · rw [e2]; exact Or.inl (wk_matches _ (revMask_mem m hm) _ _ _ _)
 
-theorem cands_wildcards (p : Pat) (a : Key) (hX : "X" ∉ a) : ∀ c ∈ cands a p, wildcards c = noneCount p := by
-  have hXr : "X" ∉ a.reverse := by simpa using hX
-  intro c hc
-  simp only [cands, List.mem_cons, List.not_mem_nil, or_false] at hc
-  rcases hc with rfl | rfl | rfl | rfl
-  · exact wk_wildcards a hX p
-  · rw [wildcards, List.count_reverse]; exact wk_wildcards a hX p
-  · exact wk_wildcards _ hXr p
-  · rw [wildcards, List.count_reverse]; exact wk_wildcards _ hXr p
-
 theorem cands_wildcards_le (p : Pat) (hp : isMask p = true) (a : Key) (ha : a.length = 4) :
     ∀ c ∈ cands a p, wildcards c ≤ noneCount p + List.count "X" a := by
   obtain ⟨b0, b1, b2, b3, rfl⟩ := len4 a ha
@@ -276,28 +220,6 @@ theorem match_in_cands_min (k a : Key) (ha : a.length = 4) (h : matchesEither k 
       rw [← this, hk]
   · obtain ⟨m, hm, hk, hn⟩ := key_of_minmask k _ _ _ _ h
     refine ⟨m, hm, by rw [← hcr]; exact hn, ?_, ?_⟩
-    · simp [cands, hr, hk]
-    · have := wk_revMask _ hm b3 b2 b1 b0
-      simp only [cands, hr, List.mem_cons]
-      right; left
-      rw [← this, hk]
-
-/-- a matching key is among the keys tried for its own mask and for the reversed mask -/
-theorem match_in_cands (k a : Key) (ha : a.length = 4) (h : matchesEither k a = true) :
-    ∃ m ∈ allMasks, noneCount m = wildcards k ∧ k ∈ cands a m ∧ k ∈ cands a (revMask m) := by
-  obtain ⟨b0, b1, b2, b3, rfl⟩ := len4 a ha
-  have hr : [b0, b1, b2, b3].reverse = [b3, b2, b1, b0] := rfl
-  simp only [matchesEither, hr, Bool.or_eq_true] at h
-  rcases h with h | h
-  · obtain ⟨hm, hk, hn⟩ := key_of_mask k _ _ _ _ h
-    refine ⟨_, hm, hn, ?_, ?_⟩
-    · simp [cands, hk]
-    · have := wk_revMask _ hm b0 b1 b2 b3
-      simp only [cands, hr, List.mem_cons]
-      right; right; right; left
-      rw [← this, hk]
-  · obtain ⟨hm, hk, hn⟩ := key_of_mask k _ _ _ _ h
-    refine ⟨_, hm, hn, ?_, ?_⟩
     · simp [cands, hr, hk]
     · have := wk_revMask _ hm b3 b2 b1 b0
       simp only [cands, hr, List.mem_cons]
@@ -354,7 +276,7 @@ theorem matchDihedral_none_iff (P : List Pat) (F : TableFacts P) (t : TypeTable)
     cases hmatch : matchesEither k' a with
     | false => rfl
     | true =>
-      obtain ⟨m, hm, _, hc1, hc2⟩ := match_in_cands k' a ha hmatch
+      obtain ⟨m, hm, _, hc1, hc2⟩ := match_in_cands_min k' a ha hmatch
       have hcov := List.all_eq_true.mp F.covers m hm
       simp only [Bool.or_eq_true, List.contains_iff_mem] at hcov
       have hnone := List.findSome?_eq_none_iff.mp h
@@ -374,6 +296,12 @@ theorem matchDihedral_none_iff (P : List Pat) (F : TableFacts P) (t : TypeTable)
     have := cands_match p hpm a ha c hc
     rw [h c ((hasKey_iff t c).mp hkey)] at this
     exact Bool.false_ne_true this
+
+theorem keyMatches_self (a : Key) : keyMatches a a = true := by
+  simp only [keyMatches, beq_self_eq_true, Bool.true_and]
+  induction a with
+  | nil => rfl
+  | cons x rest _ => simp
 
 theorem matchesEither_reverse (k a : Key) : matchesEither k a.reverse = matchesEither k a := by
   simp [matchesEither, Bool.or_comm]
